@@ -286,7 +286,7 @@ def faultStart (r : Result) : Option Nat :=
 inductive NodeFault
   | noSuchTag | invalidTagName | missingAttribute | invalidAttribute | attrNoExpressions | missingParenthesis
   | blockHasSignature | anonBlockArgs | namespaceNeedsName | namespaceFileAndModule
-  | notFunctionDecl | kwargsNotAllowed | importStar | fragmentNotPartial | unsupportedKeyword
+  | notFunctionDecl | kwargsNotAllowed | importStar | nestedTooDeeply | fragmentNotPartial | unsupportedKeyword
   | duplicateName | namedBlockInDef | namedBlockInCall | anonBlockInNamespace
   deriving DecidableEq, Repr
 
@@ -322,6 +322,7 @@ def siteClassTable : List ((String × String) × String) := [
   (("_Identifiers._reject_named_blocks.FindNamedBlocks.visitBlockTag", "Named block '%s' not allowed ins"), "named-block-in-def-or-call"),
   (("_Identifiers.visitBlockTag", "Named block '%s' not allowed ins"), "named-block-in-def-or-call"),
   (("parse", "(%s) %s (%r)"), "python"),
+  (("visit", "(RecursionError) Python code is "), "deep-nesting"),
   (("FindIdentifiers.visit_ImportFrom", "'import *' is not supported, sin"), "import-star"),
   (("PythonFragment.__init__", "Fragment '%s' is not a partial c"), "fragment-not-partial"),
   (("PythonFragment.__init__", "Unsupported control keyword: '%s"), "unsupported-keyword"),
@@ -340,7 +341,11 @@ def siteUsesOwnNode (site : String × String × String × String) : Bool :=
 inductive ExcClass | syntaxException | compileException
   deriving DecidableEq, Repr
 
-def NodeFault.cls : NodeFault → ExcClass := fun _ => .compileException
+/-- all `CompileException`, except the `SyntaxException` of `pyparser.visit` (code nested deeper than the identifier
+    visitors can recurse; since /repo 8d3f80e) -/
+def NodeFault.cls : NodeFault → ExcClass
+  | .nestedTooDeeply => .syntaxException
+  | _ => .compileException
 
 /-- what a node-level fault reports: the coordinates of the node's token -/
 def nodeFaultPos (t : Token) (_ : NodeFault) : Nat × Nat := (t.lineno, t.pos)
